@@ -1,4 +1,4 @@
-import Eru.Wal.ProofsHistory
+import Eru.Wal.ProofsInterleave
 /-
 C16 — the recovery log replays exactly the uncommitted events.
 
@@ -208,6 +208,144 @@ example :
 
 theorem reopen_keeps_pending (a : Abs) : (absStep .reopen a).2.pending = a.pending ∧ (absStep .reopen a).2.next = a.next :=
   ⟨rfl, rfl⟩
+
+/-! ### Recovery is not atomic in the code: scan, then one (check, handle, delete) per event
+
+`Eru/Wal/Interleave.lean` splits `Op.recover` into `scan` + `handleNext` steps that other goroutines'
+`Log`/`Commit` calls may interleave with.  What survives, and which clause needs more:
+
+* handlers are called only for events that were stored AT SCAN TIME, in id order, each at most once per
+  recovery — `interleaved_calls` — whatever runs in between;
+* an event stored at scan time is gone afterwards iff its handler succeeded / declared it unnecessary OR
+  it was committed in between — `interleaved_removed_iff`;
+* ids stay fresh (`ids_fresh` is about `NextSequence` only; `scan`/`handleNext` issue no ids);
+* the clause "handlers are called only for events that are logged and NOT COMMITTED" holds with
+  "not committed when the scan ran"; it holds as stated only when no `Commit` runs concurrently with
+  the recovery (`handler_runs_for_event_committed_after_scan` is the counterexample otherwise).  calcium
+  runs `Recover` at start-up before it serves requests, i.e. as `recoverSeq`, for which the atomic
+  theorems above apply unchanged (`sequential_recovery_removed_iff`). -/
+
+/-- refinement of the interleaved model: over any history of base operations, scans (also failing
+ones) and single handling steps, the concrete store produces the abstract observations, holds the
+abstract pending list, and the recovery in progress holds the same scanned events -/
+theorem interleaved_refines (ops : List ROp) (hok : ropsOk ops) (hn : rbegins ops < 2 ^ 64) :
+    (rrun ops {}).1 = (rabsRun ops ({}, [])).1 ∧
+    pendingOf (rrun ops {}).2.st = (rabsRun ops ({}, [])).2.1.pending ∧
+    (rrun ops {}).2.scanned = (rabsRun ops ({}, [])).2.2 := by
+  obtain ⟨h1, h2⟩ := rrun_refines ops {} ({}, []) RRel.init hok (by simpa using hn)
+  refine ⟨h1, ?_, h2.sc⟩
+  have hnext : (rabsRun ops ({}, [])).2.1.next < 2 ^ 64 := by
+    have : ∀ (ops : List ROp) (a : Abs × List Event), (rabsRun ops a).2.1.next = a.1.next + rbegins ops := by
+      intro ops
+      induction ops with
+      | nil => intro a; rfl
+      | cons op ops ih =>
+        intro a
+        have := rbegins_cons op ops
+        simp only [rabsRun]
+        rw [ih, rabsStep_next]; omega
+    rw [this]; simpa using hn
+  exact pendingOf_rel h2.rel hnext
+
+/-- `interleaved_calls`: a recovery whose scan saw the pending list `a.pending` (or, if the scan failed
+after `n` entries, its first `n` events) makes exactly the handler chains of the first `handles ops` of
+those events, in id order, whatever `Log`/`Commit` calls of other goroutines run in between: only events
+stored at scan time, in logging order, at most once -/
+theorem interleaved_calls (reg : List String) (out : Event → HOut) (lim : Option Nat) (ops : List ROp)
+    (a : Abs) (sc0 : List Event) (hops : ∀ op ∈ ops, Inter reg out op) (hinv : AInv a) :
+    let scanned := match lim with | none => a.pending | some n => a.pending.take n
+    let cs := allCalls (rabsRun (.scan lim :: ops) (a, sc0)).1
+    cs = absCalls reg out (scanned.take (handles ops)) ∧ (replayedIds cs).Pairwise (· < ·) := by
+  intro scanned cs
+  have h := (inter_calls reg out ops (a, scanned) hops).1
+  have hcs : cs = absCalls reg out (scanned.take (handles ops)) := by
+    show allCalls (rabsRun (.scan lim :: ops) (a, sc0)).1 = _
+    simp only [rabsRun, rabsStep, allCalls]
+    exact h
+  refine ⟨hcs, ?_⟩
+  rw [hcs, replayedIds_absCalls]
+  have hsorted : Sorted scanned := by
+    show Sorted (match lim with | none => a.pending | some n => a.pending.take n)
+    cases lim with
+    | none => exact hinv.sortedP
+    | some n => exact List.Pairwise.sublist (List.take_sublist _ _) hinv.sortedP
+  exact List.Pairwise.map _ (fun _ _ h => h)
+    (List.Pairwise.filter _ (List.Pairwise.sublist (List.take_sublist _ _) hsorted))
+
+/-- `interleaved_removed_iff`: for an event `e` stored when the scan ran, after the recovery handled
+everything it scanned (`handles ops ≥` number of scanned events) with arbitrary logging and commits of
+other goroutines in between: `e` is still stored iff its handler did not succeed / declare it
+unnecessary AND no `Commit` of its id ran in between. -/
+theorem interleaved_removed_iff (reg : List String) (out : Event → HOut) (ops : List ROp) (a : Abs) (sc0 : List Event)
+    (e : Event) (hops : ∀ op ∈ ops, Inter reg out op) (hinv : AInv a) (he : e ∈ a.pending)
+    (hall : a.pending.length ≤ handles ops) :
+    e ∈ (rabsRun (.scan none :: ops) (a, sc0)).2.1.pending ↔
+      removes reg out e = false ∧ ops.all (fun o => !commitsId e.id o) = true := by
+  have h := inter_removed_iff reg out e ops (a, a.pending) hops hinv.sortedP
+    (fun x hx hid => sorted_id_inj a.pending hinv.sortedP x e hx he hid)
+    ⟨hinv.pend e he, fun x hx hid => hinv.disj x hx e he hid⟩
+  have htake : a.pending.take (handles ops) = a.pending := List.take_of_length_le hall
+  simp only [rabsRun, rabsStep]
+  rw [h, htake]
+  constructor
+  · rintro ⟨_, h2, h3⟩; exact ⟨h3 he, h2⟩
+  · rintro ⟨h1, h2⟩; exact ⟨he, h2, fun _ => h1⟩
+
+/-- without anything in between (start-up recovery) this is the atomic `removed_iff` -/
+theorem sequential_recovery_removed_iff (reg : List String) (out : Event → HOut) (a : Abs) (sc0 : List Event) (e : Event)
+    (hinv : AInv a) (he : e ∈ a.pending) :
+    e ∈ (rabsRun (recoverSeq reg out a.pending.length) (a, sc0)).2.1.pending ↔ removes reg out e = false := by
+  have hops : ∀ op ∈ List.replicate a.pending.length (ROp.handleNext reg out), Inter reg out op := by
+    intro op hop; rw [List.eq_of_mem_replicate hop]; exact ⟨rfl, rfl⟩
+  have hh : ∀ n, handles (List.replicate n (ROp.handleNext reg out)) = n := by
+    intro n; induction n with
+    | zero => rfl
+    | succ n ih => simp [List.replicate_succ, handles, ih]
+  have := interleaved_removed_iff reg out _ a sc0 e hops hinv he (by rw [hh])
+  unfold recoverSeq
+  rw [this]
+  have hc : (List.replicate a.pending.length (ROp.handleNext reg out)).all (fun o => !commitsId e.id o) = true := by
+    rw [List.all_eq_true]; intro o ho; rw [List.eq_of_mem_replicate ho]; rfl
+  simp [hc]
+
+/-- the clause that needs "no commit concurrent with recovery": with a `Commit` landing between the scan
+and the handling, the handler DOES run for an event that is committed by then (its `Delete` then hits a
+missing key).  Concrete model, decided. -/
+theorem handler_runs_for_event_committed_after_scan :
+    let ops : List ROp := [.base (.begin "t" "a"), .base (.finish 1), .base (.begin "t" "b"), .base (.finish 2),
+      .scan none, .base (.commit 2), .handleNext ["t"] (fun _ => .ok), .handleNext ["t"] (fun _ => .ok)]
+    (allCalls (rrun ops {}).1).map (fun c => (c.id, c.item)) =
+      [(1, "a"), (1, "a"), (1, "a"), (2, "b"), (2, "b"), (2, "b")] ∧ pendingOf (rrun ops {}).2.st = [] := by
+  decide
+
+/-! ### KV errors -/
+
+/-- `Delete` failing inside `recover` (after a successful or unnecessary handling): the event is NOT
+removed — it stays stored and the next recovery replays it -/
+theorem delete_error_keeps_event (ops : List Op) (reg : List String) (out : Event → HOut) (e : Event)
+    (hok : opsOk ops) (hn : begins ops < 2 ^ 64) (he : e ∈ pendingOf (run ops {}).2)
+    (hout : out e = .okDelErr ∨ out e = .notNeededDelErr) :
+    e ∈ pendingOf (run (ops ++ [.recover reg out]) {}).2 := by
+  rw [removed_iff ops reg out e hok hn]
+  refine ⟨he, ?_⟩
+  rcases hout with h | h <;> simp [removes, h]
+
+/-- `Put` failing after `NextSequence` (or the logger dying in between): the id is consumed — it is
+never handed out again (`ids_fresh`) — and no event with that id is ever stored: a stored event's id
+always has its `Put` (`finish`) in the history -/
+theorem put_failure_id_never_pending (ops : List Op) (id : Nat) (hok : opsOk ops) (hn : begins ops < 2 ^ 64)
+    (hnofinish : ∀ op ∈ ops, op ≠ .finish id) : ∀ e ∈ pendingOf (run ops {}).2, e.id ≠ id := by
+  intro e he hid
+  obtain ⟨o1, o2, h, _, _⟩ := (pending_iff_history ops e hok hn).mp he
+  exact hnofinish (.finish e.id) (by rw [h]; simp) (by rw [hid])
+
+/-- a failing scan (bbolt error after `n` entries): the recovery handles only (a prefix of) the first `n`
+stored events — still only stored events, in id order, at most once — and `interleaved_removed_iff`'s
+mechanism leaves every other event alone: nothing is removed that was not handled -/
+theorem scan_error_only_prefix_handled (reg : List String) (out : Event → HOut) (n : Nat) (ops : List ROp)
+    (a : Abs) (sc0 : List Event) (hops : ∀ op ∈ ops, Inter reg out op) (hinv : AInv a) :
+    allCalls (rabsRun (.scan (some n) :: ops) (a, sc0)).1 = absCalls reg out ((a.pending.take n).take (handles ops)) :=
+  (interleaved_calls reg out (some n) ops a sc0 hops hinv).1
 
 -- non-vacuity: a concrete history with two loggers racing, a crash, and a failing handler
 example :
